@@ -1,9 +1,12 @@
 (* C09 — The public API is free of data races, panics and deadlocks under concurrent use.
-   Property theorems only: the deadlock part.  Model: model/LockOrder.v; gen/GenLockPaths.v is
-   regenerated from the engine's exported calls on every run (translator T2b).  Data races and panics
-   are searched for at run time (race detector, recover, watchdog): see the check. *)
+   Property theorems only: the deadlock part (model/LockOrder.v; gen/GenLockPaths.v is regenerated
+   from the engine's exported calls on every run by translator T2b) and the data-race part at the
+   level of locksets (model/LockSet.v; gen/GenAccess.v is regenerated on every run by translator
+   T2c: every read and write of a field of DB, Batch, DataFile, MMap and of an index shard on every
+   path of every exported call, with the locks held there).  Panics, and races the lockset
+   abstraction cannot see, are searched for at run time (race detector, recover, watchdog): see the check. *)
 From Coq Require Import List Arith Bool.
-From KV Require Import LockOrder LockOrderProofs GenLockPaths.
+From KV Require Import LockOrder LockOrderProofs GenLockPaths LockSet LockSetProofs GenAccess.
 Import ListNotations.
 
 (* Lock-ordering discipline: a thread takes a lock only if it ranks above every lock it holds (hence
@@ -49,6 +52,60 @@ Proof.
     apply Nat.ltb_lt. exact Hb.
 Qed.
 Print Assumptions C09_engine_clients_never_deadlock.
+
+(* Lockset discipline: if every two entries of a table that may touch the same memory, one of them
+   writing (and not both atomically), hold a common lock, one of them exclusively, then threads whose
+   accesses are entries of the table performed with the listed locks held never reach a state in which
+   two of them are about to perform conflicting accesses - ANY number of threads, ANY programs, ANY
+   schedule of sync.RWMutex-style locks. *)
+Theorem C09_lockset_discipline_excludes_data_races :
+  forall tbl progs sched,
+    lockset_ok tbl = true -> Forall (annotated tbl []) progs -> ~ race (arun (map (mkAThr []) progs) sched).
+Proof. exact lockset_discipline_excludes_races. Qed.
+Print Assumptions C09_lockset_discipline_excludes_data_races.
+
+(* The table extracted from the current source follows the discipline; the extraction was complete
+   (no path set was cut, no lock operation was found unbalanced) and is not trivial. *)
+Theorem C09_engine_accesses_follow_the_lockset_discipline :
+  lockset_ok gen_accesses = true /\ gen_truncated = false /\ gen_note_count = 0 /\
+  length gen_accesses = gen_access_count /\ Nat.leb 100 gen_access_count = true /\ Nat.leb 30 gen_write_count = true /\ Nat.leb 20 gen_entry_count = true.
+Proof. vm_compute. repeat split; reflexivity. Qed.
+Print Assumptions C09_engine_accesses_follow_the_lockset_discipline.
+
+(* hence: clients whose accesses are those of the table never race *)
+Theorem C09_engine_clients_never_race :
+  forall progs sched,
+    Forall (annotated gen_accesses []) progs -> ~ race (arun (map (mkAThr []) progs) sched).
+Proof.
+  intros progs sched H. apply (lockset_discipline_excludes_races gen_accesses); [|exact H].
+  exact (proj1 C09_engine_accesses_follow_the_lockset_discipline).
+Qed.
+Print Assumptions C09_engine_clients_never_race.
+
+(* Non-vacuity of the lockset part: what the discipline rejects and accepts, and a two-thread program
+   over the extracted table that is annotated faithfully (a Put-like writer and a Stat-like reader). *)
+Example c09_lockset_nonvacuous :
+  lockset_ok [mkAcc 0 0 true false [(0, false)]] = false /\
+  lockset_ok [mkAcc 0 0 true false [(0, true)]; mkAcc 0 0 false false []] = false /\
+  lockset_ok [mkAcc 0 0 true false [(0, true)]; mkAcc 0 0 false false [(0, false)]] = true /\
+  exists a b, In a gen_accesses /\ In b gen_accesses /\ conflict a b = true /\
+    annotated gen_accesses [] [LAcq 0 true; Touch a; LRel 0] /\ annotated gen_accesses [] [LAcq 0 false; Touch b; LRel 0].
+Proof.
+  split; [reflexivity|]. split; [reflexivity|]. split; [reflexivity|].
+  pose (w := existsb (fun a => existsb (fun b => conflict a b && forallb (fun lx => Nat.eqb (fst lx) 0 && Bool.eqb (snd lx) true && Nat.eqb (length (a_held a)) 1) (a_held a)
+                       && forallb (fun lx => Nat.eqb (fst lx) 0 && Bool.eqb (snd lx) false && Nat.eqb (length (a_held b)) 1) (a_held b)
+                       && negb (Nat.eqb (length (a_held a)) 0) && negb (Nat.eqb (length (a_held b)) 0)) gen_accesses) gen_accesses).
+  assert (Hw : w = true) by (vm_compute; reflexivity).
+  unfold w in Hw. apply existsb_exists in Hw. destruct Hw as (a & Ha & Hw). apply existsb_exists in Hw. destruct Hw as (b & Hb & Hw).
+  do 4 (apply andb_true_iff in Hw; destruct Hw as [Hw ?]).
+  exists a, b. split; [exact Ha|]. split; [exact Hb|]. split; [exact Hw|].
+  assert (Hone : forall (x : access) m, forallb (fun lx => Nat.eqb (fst lx) 0 && Bool.eqb (snd lx) m && Nat.eqb (length (a_held x)) 1) (a_held x) = true ->
+                 forall lx, In lx (a_held x) -> In lx [(0, m)]).
+  { intros x m Hf lx Hin. rewrite forallb_forall in Hf. specialize (Hf lx Hin).
+    apply andb_true_iff in Hf. destruct Hf as [Hf _]. apply andb_true_iff in Hf. destruct Hf as [E1 E2].
+    apply Nat.eqb_eq in E1. apply Bool.eqb_prop in E2. destruct lx as [l x']. cbn in E1, E2. subst. left. reflexivity. }
+  split; cbn [annotated drop_lock]; (split; [assumption|]); (split; [|exact I]); eapply Hone; eassumption.
+Qed.
 
 (* Non-vacuity: the discipline rejects a call that re-acquires the engine lock (what calling
    getValueByPosition from inside a batch would do) and a lock-order inversion. *)
